@@ -9,12 +9,20 @@ def PersistentPrefixes : List String := ["tunnox:user:", "tunnox:client:", "tunn
 def SharedPersistentPrefixes : List String := ["tunnox:client_mappings:", "tunnox:user_mappings:", "tunnox:port_mapping:", "tunnox:mappings:list", "tunnox:http_domain:mapping:", "tunnox:http_domain:client:", "webhook:", "webhooks:", "webhook_log:", "webhook_logs:"]
 end hybrid.DefaultConfig
 
+namespace constants
+def TTLClientState : Nat := 90
+def KeyPrefixRuntimeClientState : String := "tunnox:runtime:client:state:"
+end constants
+
 namespace Skel
 def BaseAdapter_cleanupConnection : List String := ["session.CloseConnection", "closer.Close"]
 def BaseAdapter_handleConnection : List String := ["b.cleanupConnection", "b.initializeConnection", "b.connectionReadLoop"]
 def ClientRegistry_CleanupStale : List String := ["mu.Lock", "IsStale", "unindexLocked", "delete", "mu.Unlock", "closeFn", "stream.Close"]
 def ClientRegistry_Close : List String := ["mu.Lock", "mu.Unlock", "Stream.Close"]
 def ClientRegistry_KickOldConnection : List String := ["mu.Lock", "unindexLocked", "delete", "mu.Unlock", "sendKickFn", "stream.Close"]
+def Client_ConnectClient : List String := ["stateRepo.GetState", "stateRepo.SetState", "stateRepo.AddToNodeClients", "publishClientOnlineEvent"]
+def Client_DisconnectClientIfMatch : List String := ["stateRepo.GetState", "stateRepo.RemoveFromNodeClients", "stateRepo.DeleteState", "publishClientOfflineEvent"]
+def Client_EnsureClientOnline : List String := ["stateRepo.GetState", "state.Touch", "stateRepo.SetState", "stateRepo.SetState", "stateRepo.AddToNodeClients"]
 def CloseConnection : List String := ["delete", "RemoveControlConnection", "RemoveTunnelConnection", "connStateStore.UnregisterConnection"]
 def CreateConnection : List String := ["streamMgr.CreateStream", "connLock.Lock", "connLock.Unlock", "connLock.Unlock"]
 def FindClientNode_storage : List String := ["storage.Get", "GetConnectionState"]
@@ -25,10 +33,12 @@ def Hybrid_getCacheForKey : List String := ["h.isShared"]
 def Hybrid_getCategory : List String := ["h.isSharedPersistent", "h.isShared", "h.isPersistent"]
 def Hybrid_setShared : List String := ["h.getCacheForKey", "cache.Set"]
 def KickOldControlConnection : List String := ["clientRegistry.KickOldConnection"]
-def RemoveControlConnection : List String := ["clientRegistry.GetByConnID", "clientRegistry.Remove"]
+def RemoveControlConnection : List String := ["clientRegistry.GetByConnID", "clientRegistry.Remove", "cloudControl.DisconnectClientIfMatch"]
 def SendCommandToClient : List String := ["GetControlConnectionByClientID", "sendCommandLocal", "sendCommandCrossNode"]
 def SendHTTPProxyRequest : List String := ["GetControlConnectionByClientID", "sendHTTPProxyRequestLocal", "connStateStore.FindClientNode", "sendHTTPProxyRequestCrossNode"]
 def SessionManager_onClose : List String := ["clientRegistry.Close", "tunnelRegistry.Close", "connLock.Lock", "connLock.Unlock"]
+def StateRepo_GetState : List String := ["storage.Get"]
+def StateRepo_SetState : List String := ["state.Validate", "storage.Set"]
 def StreamManager_CreateStream : List String := ["mu.Lock", "mu.Unlock", "factory.NewStreamProcessor"]
 def UpdateAuth : List String := ["mu.Lock", "mu.Unlock", "unindexLocked"]
 def WebSocketModule_handleConnection : List String := ["session.CloseConnection", "wsConn.Close"]
@@ -37,10 +47,11 @@ def clientIndexPointsTo_storage : List String := ["storage.Get"]
 def handleDNSQueryCrossNode : List String := ["connStateStore.FindClientNode", "crossNodePool.Get", "WriteFrame", "ReadFrame"]
 def handleDisconnectCommand : List String := ["clientRegistry.GetByConnID", "CloseConnection"]
 def handleHandshake : List String := ["RegisterControlConnection", "RegisterControlConnection", "authHandler.HandleHandshake", "sendHandshakeResponse", "clientRegistry.DropStaleIndex", "sendHandshakeResponse", "clientRegistry.GetByClientID", "connStateStore.UnregisterConnection", "clientRegistry.Remove", "clientRegistry.UpdateAuth", "connStateStore.RegisterConnection"]
-def handleHeartbeat : List String := ["clientRegistry.GetByConnID", "controlConn.UpdateActivity", "connStateStore.RefreshConnection"]
+def handleHeartbeat : List String := ["clientRegistry.GetByConnID", "controlConn.UpdateActivity", "cloudControl.EnsureClientOnline", "connStateStore.RefreshConnection"]
 def removeConnectionLocked : List String := ["Stream.Close", "unindexLocked", "delete"]
 def sendCommandCrossNode : List String := ["connStateStore.FindClientNode", "crossNodePool.Get", "WriteFrame", "ReadFrame"]
 def unindexLocked : List String := ["delete"]
+def updateClientRuntimeState : List String := ["cloudControl.ConnectClient"]
 end Skel
 
 namespace Flow
